@@ -173,7 +173,7 @@ def parm_i(fn, i):
     return ('var', 'parm', fn['params'][i]['n'], 0)
 
 
-def truth_table(view, paths, atoms, outcome):
+def truth_table(view, paths, atoms, outcome, ignore_unknown=False):
     """P11.  atoms: list of atom normal forms.  outcome(path, events) -> hashable or None (ignore path).
     Returns {assignment tuple: set(outcomes)}; raises AnalysisBroken when a path branches on an atom outside `atoms`
     (after ignoring constant atoms)."""
@@ -185,6 +185,8 @@ def truth_table(view, paths, atoms, outcome):
         for ev in evs:
             if ev.kind == 'branch':
                 if ev.atom[0] == 'truthy' and ev.atom[1][0] in ('int', 'bool'):
+                    continue
+                if ev.atom not in atoms and ignore_unknown:
                     continue
                 if ev.atom not in atoms:
                     raise AnalysisBroken('%s branches on an atom outside the rule\'s vocabulary: %s (line %s)' %
